@@ -20,6 +20,20 @@ impl RngCore for Fixed {
 }
 impl CryptoRng for Fixed {}
 
+/// a generator that writes half of the buffer and then reports failure
+struct Failing;
+impl RngCore for Failing {
+    fn next_u32(&mut self) -> u32 { unimplemented!() }
+    fn next_u64(&mut self) -> u64 { unimplemented!() }
+    fn fill_bytes(&mut self, _d: &mut [u8]) { unimplemented!() }
+    fn try_fill_bytes(&mut self, d: &mut [u8]) -> Result<(), rand_core::Error> {
+        let n = d.len() / 2;
+        for b in d[..n].iter_mut() { *b = 0x11; }
+        Err(rand_core::Error::from(core::num::NonZeroU32::new(rand_core::Error::CUSTOM_START + 7).unwrap()))
+    }
+}
+impl CryptoRng for Failing {}
+
 macro_rules! kat {
     ($m:ident, $name:expr, $seed:expr, $rnd:expr, $bulk:expr) => {{
         use fips204::$m as api;
@@ -51,6 +65,10 @@ macro_rules! kat {
             h.update(&[bad as u8]);
         }
         h.update(&sk2.get_public_key().into_bytes());
+        // error paths must not depend on the configuration either
+        h.update(&[api::try_keygen_with_rng(&mut Failing).is_ok() as u8]);
+        h.update(&[sk2.try_sign_with_rng(&mut Failing, msg, ctx).is_ok() as u8]);
+        h.update(&[sk2.try_hash_sign_with_rng(&mut Failing, msg, ctx, &Ph::SHA512).is_ok() as u8]);
         let d = h.finalize();
         let hex: String = d.iter().map(|b| format!("{:02x}", b)).collect();
         println!("KAT {} {}", $name, hex);
